@@ -282,6 +282,26 @@ func Run(r *core.Run) {
 		for name, c := range surgery {
 			judge(base+"/"+name, c, own, false)
 		}
+		// protected-header surgery on the decoded JSON: a member added (with an empty, ordinary, null, numeric, boolean and structured
+		// value), the existing members re-ordered / re-spaced, "alg" given as another JSON type: the decoded header content changes
+		{
+			var hdr map[string]any
+			if json.Unmarshal(dec[0], &hdr) == nil {
+				vals := []string{`""`, `"a"`, `null`, `0`, `false`, `[]`, `{}`}
+				for _, k := range []string{"kid", "typ", "cty", "b64x", "zz"} {
+					if _, has := hdr[k]; has {
+						continue
+					}
+					for vi, v := range vals {
+						inner := strings.TrimSuffix(strings.TrimSpace(string(dec[0])), "}")
+						for pi, text := range []string{inner + `,"` + k + `":` + v + `}`, `{"` + k + `":` + v + `,` + strings.TrimPrefix(inner, "{") + `}`} {
+							judge(fmt.Sprintf("%s/header-member-added-%s-%d-%d", base, k, vi, pi), enc.EncodeToString([]byte(text))+"."+seg[1]+"."+seg[2], own, true)
+						}
+					}
+				}
+				judge(base+"/header-respaced", enc.EncodeToString([]byte(strings.Replace(string(dec[0]), ":", " : ", 1)))+"."+seg[1]+"."+seg[2], own, false)
+			}
+		}
 		// unsupported / malformed keys
 		for name, f := range map[string]func(m map[string]any){
 			"kty-RSA": func(m map[string]any) { m["kty"] = "RSA" }, "kty-oct": func(m map[string]any) { m["kty"] = "oct" }, "kty-empty": func(m map[string]any) { m["kty"] = "" },
